@@ -119,6 +119,11 @@ class Machine:
             idx = self.ev(i, env)
             if not isinstance(idx, int):
                 raise Unsupported('symbolic index')
+            if isinstance(p, tuple):
+                # constant lookup table (local array with an initialiser list)
+                if not 0 <= idx < len(p):
+                    raise Unsupported('index %d outside the constant table of %d elements' % (idx, len(p)))
+                return ('cell', [p[idx]])
             return ('mem', Sym('ptr', p.a, p.b + idx))
         if k in ('CStyleCastExpr', 'CXXStaticCastExpr', 'CXXConstCastExpr', 'ImplicitCastExpr'):
             return self.lvalue(children(n)[0], env)
@@ -136,6 +141,8 @@ class Machine:
             self.write(lv[1], v)
 
     def narrow(self, v, t):
+        if isinstance(v, tuple):
+            return v
         t = base_type(t)
         if isinstance(v, int):
             if t in UINT_BITS:
@@ -316,6 +323,11 @@ class Machine:
             return self.ev(a if cv else b, env)
         if k in CALL_KINDS:
             return self.call(n, env)
+        if k == 'InitListExpr':
+            vals = tuple(self.ev(c, env) for c in children(n))
+            if not all(isinstance(v, int) for v in vals):
+                raise Unsupported('initialiser list with non-constant elements at line %s' % n.get('l'))
+            return vals
         raise Unsupported('expression kind %s at line %s' % (k, n.get('l')))
 
     def call(self, n, env):
